@@ -210,6 +210,9 @@ def write_overlay(extra=None):
 
 
 def build_harness(race=False):
+    if os.environ.get("VERIF_HARNESS_OVERRIDE") and os.environ.get("VERIF_MUTANT_OVERLAY") is not None:
+        # development aid (tools/covreport.py): a coverage-instrumented build of the same harness
+        return True, "", os.environ["VERIF_HARNESS_OVERRIDE"]
     with Lock("harness"):
         hd = os.path.join(ROOT, "harness")
         shutil.copyfile(os.path.join(REPO, "go.sum"), os.path.join(hd, "go.sum"))
